@@ -234,6 +234,10 @@ class Fail(Exception):
         self.name, self.detail = name, detail
 
 
+# amounts sent to every entry point (the deployer holds 10**30 wei): odd, even, single high bits, byte boundaries
+CALL_VALUES = (1, 2, 256, 10 ** 9, 2 ** 64, 10 ** 18 + 2, 2 ** 96)
+
+
 def encode_args(inputs, values):
     from eth_abi import encode
     return encode([jsig(i) for i in inputs], list(values))
@@ -418,11 +422,14 @@ def drive(ctx, K, cfg, rnd, stats):
                     stats["getter_roundtrips"] += 1
             ch.revert(sid)
             # value: accepted iff payable
-            sid = ch.snapshot()
-            rv = ch.call(addr, data, value=1)
-            ch.revert(sid)
-            if f["kind"] != "raise" and rv.ok != (mut == "payable"):
-                fail("value accepted iff payable violated", sig=sig, mutability=mut, accepted=rv.ok)
+            # (a family of amounts: a check that looks at one bit, one byte or the sign of the amount must not pass)
+            for amount in CALL_VALUES:
+                sid = ch.snapshot()
+                rv = ch.call(addr, data, value=amount)
+                ch.revert(sid)
+                stats["value_probes"] = stats.get("value_probes", 0) + 1
+                if f["kind"] != "raise" and rv.ok != (mut == "payable"):
+                    fail("value accepted iff payable violated", sig=sig, mutability=mut, accepted=rv.ok, call_value=amount)
             if nin == len(decl) and f["kind"] != "setter":
                 calls_for_caller.append((e, vals, data))
         elif name in gvar and gvar[name]["kind"] in ("constant", "immutable"):
@@ -437,8 +444,10 @@ def drive(ctx, K, cfg, rnd, stats):
             dv = decode_strict(e["outputs"], r.out)
             if dv != (descend(base, nin),):
                 fail("constant/immutable getter value differs", sig=sig, got=str(dv), expected=str(descend(base, nin)))
-            if ch.call(addr, data, value=1).ok:
-                fail("view getter accepted value", sig=sig)
+            for amount in CALL_VALUES:
+                stats["value_probes"] = stats.get("value_probes", 0) + 1
+                if ch.call(addr, data, value=amount).ok:
+                    fail("view getter accepted value", sig=sig, call_value=amount)
             stats["getter_roundtrips"] += 1
             calls_for_caller.append((e, [0] * nin, data))
         elif name in gvar and gvar[name]["kind"] == "exported":
@@ -840,6 +849,10 @@ def run(ctx):
     from vlib.configs import Config
     cfgs = [Config(False, "gas", "shanghai"), Config(False, "none", "london"), Config(True, "gas", "prague"),
             Config(True, "O3", "cancun"), Config(True, "gas", "paris")]
+    # -O codesize selects another dispatcher (the dense selector table, when there are more than 4 entry points), and the
+    # payability / calldata-size guards the ABI promises live in the dispatcher: every contract also runs under one of these
+    size_cfgs = [Config(False, "codesize", "cancun"), Config(True, "codesize", "prague"), Config(False, "codesize", "paris"),
+                 Config(True, "codesize", "shanghai")]
     found = False
     reported = set()
     drv = ctx.rng("drive")
@@ -850,7 +863,7 @@ def run(ctx):
     for i, K in enumerate(contracts):
         # every contract runs on a pre-cancun legacy target (storage re-entrancy lock: a view function must not write it)
         # and on one venom target; thorough: all
-        use = cfgs if ctx.tier == "thorough" else [cfgs[i % 2], cfgs[2 + i % 3]]
+        use = cfgs + size_cfgs if ctx.tier == "thorough" else [cfgs[i % 2], cfgs[2 + i % 3], size_cfgs[i % 4]]
         for cfg in use:
             try:
                 drive(ctx, K, cfg, drv, stats)
